@@ -1,12 +1,1371 @@
-(** C12 - lemmas (work in progress: extended below) *)
-From Coq Require Import List NArith ZArith QArith Qreals Reals Bool Lra Lia.
+(** C12 - lemmas: soundness of the stationarity checkers (Checker.v) with respect to the
+    closed-form gradients of Model.v, the closed forms are the partial derivatives of the
+    documented objectives (Coquelicot), and facts about the label coding / probability /
+    decision models. *)
+From Coq Require Import List NArith ZArith QArith Qreals Reals Bool Lra Lia Floats.
+From Interval Require Import Xreal Interval.
+From Coquelicot Require Import Coquelicot.
 From LinfaVerif Require Import Common.Num Common.NdSum Common.QF Common.IvEval C12.Model C12.Checker.
 Import ListNotations.
 Local Open Scope R_scope.
+
+(** * Small facts *)
+Lemma Q2R_Qred q : Q2R (Qred q) = Q2R q.
+Proof. apply Qeq_eqR. apply Qred_correct. Qed.
+
+Lemma Q2R_nth j (x : list Q) : Q2R (nth j x 0%Q) = nth j (map Q2R x) 0.
+Proof. rewrite <- RMicromega.Q2R_0. apply eq_sym, map_nth. Qed.
+
+Lemma Q2R_Qlin x w b : Q2R (Qlin x w b) = lin (map Q2R x) (map Q2R w) (Q2R b).
+Proof. unfold Qlin, lin. rewrite Q2R_Qred, Q2R_plus, Q2R_dot. reflexivity. Qed.
+
+Lemma map2_map {A B C A' B'} (g : A' -> B' -> C) (h : A -> A') (h' : B -> B') (X : list A) :
+  forall y, map2 g (map h X) (map h' y) = map2 (fun a b => g (h a) (h' b)) X y.
+Proof. induction X as [|a X IH]; intros [|b y]; simpl; auto. rewrite IH. reflexivity. Qed.
+
+Lemma Forall2_map2 {A B U V} (P : U -> V -> Prop) (f : A -> B -> U) (g : A -> B -> V) :
+  (forall a b, P (f a b) (g a b)) -> forall X y, Forall2 P (map2 f X y) (map2 g X y).
+Proof. intros H X. induction X as [|a X IH]; intros [|b y]; simpl; constructor; auto. Qed.
+
+Lemma Forall2_map_seq {U V} (P : U -> V -> Prop) (f : nat -> U) (g : nat -> V) l :
+  (forall j, P (f j) (g j)) -> Forall2 P (map f l) (map g l).
+Proof. intros H. induction l; simpl; constructor; auto. Qed.
+
+Lemma Forall2_app' {U V} (P : U -> V -> Prop) a b c d :
+  Forall2 P a b -> Forall2 P c d -> Forall2 P (a ++ c) (b ++ d).
+Proof. induction 1; simpl; auto. Qed.
+
+Lemma Rsum_fold l : Rsum l = fold_right Rplus 0 l.
+Proof. reflexivity. Qed.
+
+(** linear combination = the sum the gradient formulas use *)
+Lemma r_lincomb_sum (G : list R -> R -> R) (j : nat) (X : list (list R)) :
+  forall y, r_lincomb (map (fun x => nth j x 0) X) (map2 G X y)
+            = Rsum (map (fun xy => G (fst xy) (snd xy) * nth j (fst xy) 0) (combine X y)).
+Proof.
+  induction X as [|x X IH]; intros [|yi y]; simpl; auto. rewrite IH. unfold Rsum. simpl. lra.
+Qed.
+
+Lemma fold_sum_map2 (G : list R -> R -> R) (X : list (list R)) :
+  forall y, fold_right Rplus 0 (map2 G X y) = Rsum (map (fun xy => G (fst xy) (snd xy)) (combine X y)).
+Proof. induction X as [|x X IH]; intros [|yi y]; simpl; auto. rewrite IH. reflexivity. Qed.
+
+(** * Soundness of the generic checker *)
+
+Lemma norm2_le_sound comps rs tau2 :
+  Forall2 encl comps rs -> norm2_le comps tau2 = true -> Rsum (map Rsqr rs) <= Q2R tau2.
+Proof.
+  intros H E. unfold norm2_le in E.
+  apply (iv_le_i_sound prec _ _ _ _ (iv_sumsq_encl prec _ _ H) (iv_q_encl prec tau2) E).
+Qed.
+
+Lemma glin_ok_sound (phi_i : Q -> Q -> I.type) (phi : R -> R -> R) :
+  (forall y z, encl (phi_i y z) (phi (Q2R y) (Q2R z))) ->
+  forall c2 icpt X y w b tau2,
+  glin_ok phi_i c2 icpt X y w b tau2 = true ->
+  Rsum (map Rsqr (glin_grad phi (Q2R c2) icpt (map (map Q2R) X) (map Q2R y) (map Q2R w) (Q2R b))) <= Q2R tau2.
+Proof.
+  intros Hphi c2 icpt X y w b tau2 H. unfold glin_ok in H.
+  apply andb_true_iff in H as [_ H].
+  set (XR := map (map Q2R) X). set (yR := map Q2R y). set (wR := map Q2R w). set (bR := Q2R b).
+  set (G := fun (x : list R) (yi : R) => phi yi (lin x wR bR)).
+  set (phis := map2 (fun x yi => phi_i yi (Qlin x w b)) X y) in *.
+  assert (Hp : Forall2 encl phis (map2 G XR yR)).
+  { unfold XR, yR. rewrite map2_map. apply Forall2_map2. intros x yi. unfold G.
+    unfold wR, bR. rewrite <- Q2R_Qlin. apply Hphi. }
+  apply (norm2_le_sound _ (glin_grad phi (Q2R c2) icpt XR yR wR bR)) in H; [exact H|].
+  unfold glin_grad_encl, glin_grad. apply Forall2_app'.
+  - unfold wR at 2. rewrite map_length. apply Forall2_map_seq. intros j.
+    unfold glin_grad_w. apply encl_add.
+    + replace (Rsum _) with (r_lincomb (map Q2R (map (fun x => nth j x 0%Q) X)) (map2 G XR yR)).
+      * apply iv_lincomb_encl. exact Hp.
+      * rewrite map_map. erewrite map_ext by (intros; apply Q2R_nth).
+        rewrite <- (map_map (map Q2R) (fun x => nth j x 0)). fold XR. apply r_lincomb_sum.
+    + replace (Q2R c2 * nth j wR 0) with (Q2R (c2 * nth j w 0%Q)); [apply iv_q_encl|].
+      rewrite Q2R_mult, Q2R_nth. reflexivity.
+  - destruct icpt; [|constructor]. constructor; [|constructor].
+    unfold glin_grad_b. rewrite <- (fold_sum_map2 G). apply iv_sum_encl. exact Hp.
+Qed.
+
+(** * Binary logistic regression *)
+Lemma bin_phi_i_encl y z : encl (bin_phi_i y z) (bin_phi (Q2R y) (Q2R z)).
+Proof.
+  unfold bin_phi_i. replace (bin_phi (Q2R y) (Q2R z)) with (reval [] (bin_phi_e y z)).
+  - apply iv_eval_closed.
+  - unfold bin_phi_e, bin_phi. cbn [reval]. rewrite !reval_Qc, Q2R_Qred, Q2R_mult. reflexivity.
+Qed.
+
+Definition sign_R (t : bool) : R := if t then 1 else -1.
+Lemma Q2R_sign t : Q2R (sign_Q t) = sign_R t.
+Proof. destruct t; unfold sign_Q, sign_R, Q2R; simpl; lra. Qed.
+
+Lemma bin_ok_Q_sound alpha icpt X t w b tau2 :
+  bin_ok_Q alpha icpt X t w b tau2 = true ->
+  Rsum (map Rsqr (glin_grad bin_phi (Q2R alpha) icpt (map (map Q2R) X) (map sign_R t) (map Q2R w) (Q2R b))) <= Q2R tau2.
+Proof.
+  intros H. apply (glin_ok_sound _ _ bin_phi_i_encl) in H.
+  rewrite map_map in H. erewrite (map_ext (fun x => Q2R (sign_Q x))) in H by apply Q2R_sign. exact H.
+Qed.
 
 Lemma logistic_unit z : 0 < 1 / (1 + exp (- z)) < 1.
 Proof.
   pose proof (exp_pos (- z)) as H. split.
   - apply Rdiv_lt_0_compat; lra.
   - apply Rmult_lt_reg_r with (1 + exp (- z)); [lra|]. field_simplify; lra.
+Qed.
+
+
+(** * The closed-form gradients are the partial derivatives of the documented objectives *)
+
+Lemma set_nth_same {A} (l : list A) j d : set_nth l j (nth j l d) = l.
+Proof. revert j; induction l as [|a l IH]; intros [|j]; simpl; auto. rewrite IH; auto. Qed.
+Lemma set_nth_length {A} (l : list A) j v : length (set_nth l j v) = length l.
+Proof. revert j; induction l as [|a l IH]; intros [|j]; simpl; auto. Qed.
+Lemma nth_set_nth {A} (l : list A) j v d : (j < length l)%nat -> nth j (set_nth l j v) d = v.
+Proof. revert j; induction l as [|a l IH]; intros [|j] H; simpl in *; try lia; auto. apply IH; lia. Qed.
+Lemma nth_set_nth_other {A} (l : list A) j i v d : i <> j -> nth i (set_nth l j v) d = nth i l d.
+Proof.
+  revert j i; induction l as [|a l IH]; intros [|j] [|i] H; simpl; auto; try congruence.
+Qed.
+
+Lemma Rdot_set_r x : forall w j t, (j < length w)%nat -> (j < length x)%nat ->
+  Rdot x (set_nth w j t) = Rdot x w + (t - nth j w 0) * nth j x 0.
+Proof.
+  induction x as [|a x IH]; intros [|b w] [|j] t Hw Hx; simpl in *; try lia.
+  - lra.
+  - rewrite IH by lia. lra.
+Qed.
+
+Lemma Rdot_set_both w : forall j t, (j < length w)%nat ->
+  Rdot (set_nth w j t) (set_nth w j t) = Rdot w w + (t * t - nth j w 0 * nth j w 0).
+Proof.
+  induction w as [|a w IH]; intros [|j] t H; simpl in *; try lia.
+  - lra.
+  - rewrite IH by lia. lra.
+Qed.
+
+Lemma is_derive_Rsum {A} (l : list A) (f : A -> R -> R) (df : A -> R) t0 :
+  (forall a, In a l -> is_derive (f a) t0 (df a)) ->
+  is_derive (fun t => Rsum (map (fun a => f a t) l)) t0 (Rsum (map df l)).
+Proof.
+  induction l as [|a l IH]; intros H; simpl.
+  - apply (is_derive_const (V := R_NormedModule) 0 t0).
+  - apply (is_derive_plus (V := R_NormedModule) (f a) _ t0 (df a)).
+    + apply H; left; reflexivity.
+    + apply IH. intros a' Ha'. apply H; right; exact Ha'.
+Qed.
+
+Lemma is_derive_eq (f : R -> R) x l l' : is_derive f x l -> l = l' -> is_derive f x l'.
+Proof. intros H E; rewrite <- E; exact H. Qed.
+
+(** partial derivative in the weight w_j *)
+Lemma glin_obj_derive_w (ell phi : R -> R -> R) (c : R) X y w b j :
+  (j < length w)%nat ->
+  (forall x, In x X -> length x = length w) ->
+  (forall x yi, In (x, yi) (combine X y) -> is_derive (ell yi) (lin x w b) (phi yi (lin x w b))) ->
+  is_derive (fun t => glin_obj ell c X y (set_nth w j t) b) (nth j w 0) (glin_grad_w phi (2 * c) X y w b j).
+Proof.
+  intros Hj Hdim Hd. unfold glin_obj, glin_grad_w.
+  apply (is_derive_plus (V := R_NormedModule)
+           (fun t => Rsum (map (fun xy => ell (snd xy) (lin (fst xy) (set_nth w j t) b)) (combine X y)))
+           (fun t => c * Rdot (set_nth w j t) (set_nth w j t))).
+  - apply (is_derive_Rsum (combine X y) (fun xy t => ell (snd xy) (lin (fst xy) (set_nth w j t) b))
+                          (fun xy => phi (snd xy) (lin (fst xy) w b) * nth j (fst xy) 0)).
+    intros [x yi] Hin. cbn [fst snd].
+    assert (Hx : length x = length w) by (apply Hdim; eapply in_combine_l; exact Hin).
+    apply is_derive_ext with (f := fun t => ell yi (lin x w b + (t - nth j w 0) * nth j x 0)).
+    { intros t. unfold lin. rewrite Rdot_set_r by lia. f_equal. ring. }
+    eapply is_derive_eq.
+    + apply (is_derive_comp (ell yi) (fun t => lin x w b + (t - nth j w 0) * nth j x 0)).
+      * replace (lin x w b + (nth j w 0 - nth j w 0) * nth j x 0) with (lin x w b) by ring.
+        apply Hd. exact Hin.
+      * auto_derive; [exact I|reflexivity].
+    + unfold scal; simpl; unfold mult; simpl. ring.
+  - apply is_derive_ext with (f := fun t => c * (Rdot w w + (t * t - nth j w 0 * nth j w 0))).
+    { intros t. rewrite Rdot_set_both by exact Hj. reflexivity. }
+    auto_derive; [exact I|]. change (c * (1 * nth j w 0 + nth j w 0 * 1) = 2 * c * nth j w 0). ring.
+Qed.
+
+(** partial derivative in the intercept *)
+Lemma glin_obj_derive_b (ell phi : R -> R -> R) (c : R) X y w b :
+  (forall x yi, In (x, yi) (combine X y) -> is_derive (ell yi) (lin x w b) (phi yi (lin x w b))) ->
+  is_derive (fun t => glin_obj ell c X y w t) b (glin_grad_b phi X y w b).
+Proof.
+  intros Hd. unfold glin_obj, glin_grad_b.
+  eapply is_derive_eq.
+  - apply (is_derive_plus (V := R_NormedModule)
+             (fun t => Rsum (map (fun xy => ell (snd xy) (lin (fst xy) w t)) (combine X y)))
+             (fun t => c * Rdot w w)).
+    + apply (is_derive_Rsum (combine X y) (fun xy t => ell (snd xy) (lin (fst xy) w t))
+                            (fun xy => phi (snd xy) (lin (fst xy) w b))).
+      intros [x yi] Hin. cbn [fst snd]. unfold lin.
+      eapply is_derive_eq.
+      * apply (is_derive_comp (ell yi) (fun t => Rdot x w + t)); [apply (Hd x yi Hin)|].
+        auto_derive; [exact I|reflexivity].
+      * unfold scal; simpl; unfold mult; simpl. unfold lin. ring.
+    + apply (is_derive_const (V := R_NormedModule)).
+  - exact (Rplus_0_r _).
+Qed.
+
+(** binary logistic loss *)
+Lemma bin_ell_derive y z : is_derive (bin_ell y) z (bin_phi y z).
+Proof.
+  unfold bin_ell, bin_phi. auto_derive.
+  - pose proof (exp_pos (- (y * z))). lra.
+  - rewrite exp_Ropp. pose proof (exp_pos (y * z)). field. split; lra.
+Qed.
+
+(** Tweedie GLM: inverse links and unit deviances *)
+Lemma inv_link_derive l z : is_derive (inv_link l) z (inv_link_deriv l z).
+Proof.
+  destruct l; unfold inv_link, inv_link_deriv.
+  - auto_derive; [exact I|reflexivity].
+  - auto_derive; [exact I|ring].
+  - pose proof (exp_pos (- z)) as He. auto_derive; [lra|]. field. lra.
+Qed.
+
+Lemma inv_link_pos l z : l <> Identity -> 0 < inv_link l z.
+Proof.
+  destruct l; intros H; [congruence| |]; unfold inv_link.
+  - apply exp_pos.
+  - apply (proj1 (logistic_unit z)).
+Qed.
+
+Lemma dev_normal_derive y mu : is_derive (dev_normal y) mu (dev_deriv_normal y mu).
+Proof. unfold dev_normal, dev_deriv_normal. auto_derive; [exact I|ring]. Qed.
+
+Lemma Rpower_1' mu : 0 < mu -> Rpower mu 1 = mu.
+Proof. intros H. apply Rpower_1; exact H. Qed.
+
+Lemma dev_poisson_derive y mu : 0 <= y -> 0 < mu -> is_derive (dev_poisson y) mu (dev_deriv 1 y mu).
+Proof.
+  intros Hy Hmu. unfold dev_poisson, dev_deriv. rewrite Rpower_1' by exact Hmu.
+  destruct (Req_EM_T y 0) as [E|E].
+  - subst y. auto_derive; [exact I|]. field. lra.
+  - assert (0 < y) by lra. auto_derive.
+    + split; [lra|]. split; [|exact I]. apply Rdiv_lt_0_compat; lra.
+    + field. lra.
+Qed.
+
+Lemma Rpower_2' mu : 0 < mu -> Rpower mu 2 = mu * mu.
+Proof.
+  intros H. replace 2 with (1 + 1) by ring. rewrite Rpower_plus, Rpower_1' by exact H. reflexivity.
+Qed.
+
+Lemma dev_gamma_derive y mu : 0 < y -> 0 < mu -> is_derive (dev_gamma y) mu (dev_deriv 2 y mu).
+Proof.
+  intros Hy Hmu. unfold dev_gamma, dev_deriv. rewrite Rpower_2' by exact Hmu.
+  auto_derive.
+  - split; [|split; [lra|exact I]]. apply Rmult_lt_0_compat; [lra|apply Rinv_0_lt_compat; lra].
+  - field. lra.
+Qed.
+
+(** the general Tweedie deviance (powers other than 1 and 2; the code uses it for p < 0, 1 < p < 2
+    and p > 2, e.g. the compound Poisson-Gamma family and the inverse Gaussian p = 3) *)
+Lemma dev_general_derive p y mu : p <> 1 -> p <> 2 -> 0 < mu ->
+  is_derive (dev_general p y) mu (dev_deriv p y mu).
+Proof.
+  intros H1 H2 Hmu. unfold dev_general, dev_deriv, Rpower.
+  assert (Emu : mu = exp (ln mu)) by (symmetry; apply exp_ln; exact Hmu).
+  auto_derive; [repeat split; try lra; exact I|].
+  set (L := ln mu) in *.
+  replace ((1 - p) * L) with (L + - (p * L)) by ring.
+  replace ((2 - p) * L) with (L + L + - (p * L)) by ring.
+  rewrite !exp_plus, !exp_Ropp. rewrite <- Emu.
+  pose proof (exp_pos (p * L)) as HE. field. repeat split; lra.
+Qed.
+
+(** per-sample chain rule for the GLM term 1/2 d(y, g^-1(z)) *)
+Lemma glm_ell_derive (dev ddev : R -> R -> R) l y z :
+  is_derive (dev y) (inv_link l z) (ddev y (inv_link l z)) ->
+  is_derive (glm_ell dev l y) z (glm_phi ddev l y z).
+Proof.
+  intros H. unfold glm_ell, glm_phi.
+  eapply is_derive_eq.
+  - apply (is_derive_scal (fun z => dev y (inv_link l z)) z (/ 2)).
+    apply (is_derive_comp (dev y) (inv_link l) z _ _ H (inv_link_derive l z)).
+  - unfold scal; simpl; unfold mult; simpl. ring.
+Qed.
+
+(** * Soundness of the GLM checker *)
+
+Lemma glm_phi_i_encl p l y z : encl (glm_phi_i p l y z) (glm_phi (ddev_of p) l (Q2R y) (Q2R z)).
+Proof.
+  unfold glm_phi_i.
+  set (es1 := [exp_arg_e l z]). set (es2 := [mu_e l z; dmu_e l]).
+  pose proof (iv_env2_ok prec _ _ es2 (iv_env_ok prec es1)) as H2.
+  pose proof (iv_eval_R prec _ _ (glm_phi_e p y) H2) as H.
+  replace (glm_phi (ddev_of p) l (Q2R y) (Q2R z))
+    with (reval (r_env2 (r_env es1) es2) (glm_phi_e p y)); [exact H|].
+  unfold glm_phi_e, ddev_e, ddev_of, glm_phi, dev_deriv, dev_deriv_normal, Rpower.
+  destruct l; destruct (Qeq_bool p 0); cbn [reval r_env2 r_env es1 es2 exp_arg_e mu_e dmu_e map nth inv_link inv_link_deriv];
+    rewrite ?reval_Qc; unfold Rdiv; ring.
+Qed.
+
+Lemma glm_ok_Q_sound p l alpha icpt X y w b tau2 :
+  glm_ok_Q p l alpha icpt X y w b tau2 = true ->
+  Rsum (map Rsqr (glin_grad (glm_phi (ddev_of p) l) (Q2R alpha) icpt (map (map Q2R) X) (map Q2R y) (map Q2R w) (Q2R b))) <= Q2R tau2.
+Proof. apply (glin_ok_sound _ _ (glm_phi_i_encl p l)). Qed.
+
+(** * Soundness of the multinomial checker *)
+
+Lemma Q2R_colQ c W : map Q2R (colQ c W) = col c (map (map Q2R) W).
+Proof. unfold colQ, col. rewrite !map_map. apply map_ext. intros row. apply Q2R_nth. Qed.
+
+Lemma Q2R_scoresQ k W b x :
+  map Q2R (scoresQ k W b x) = scores k (map (map Q2R) W) (map Q2R b) (map Q2R x).
+Proof.
+  unfold scoresQ, scores. rewrite map_map. apply map_ext. intros c.
+  rewrite Q2R_Qred, Q2R_plus, Q2R_dot, Q2R_colQ, Q2R_nth. reflexivity.
+Qed.
+
+Lemma softmax_i_encl s :
+  Forall2 encl (softmax_i s) (map (fun v => exp v / sumexp (map Q2R s)) (map Q2R s)).
+Proof.
+  unfold softmax_i, sumexp.
+  assert (He : Forall2 encl (map (fun v => I.exp prec (iv_q prec v)) s) (map exp (map Q2R s))).
+  { induction s as [|a s IH]; simpl; constructor; auto. apply encl_exp. apply iv_q_encl. }
+  pose proof (iv_sum_encl prec _ _ He) as Ht. fold (Rsum (map exp (map Q2R s))) in Ht.
+  set (tot := iv_sum prec _) in *. set (T := Rsum _) in *.
+  rewrite <- (map_map exp (fun e => e / T)). clearbody tot T.
+  induction He as [|v r vs rs Hv Hr IH]; simpl; constructor; auto.
+  apply encl_div; assumption.
+Qed.
+
+Lemma nth_softmax_encl s c :
+  encl (nth c (softmax_i s) I.nai) (softmax (map Q2R s) c).
+Proof.
+  unfold softmax.
+  replace (exp (nth c (map Q2R s) 0) / sumexp (map Q2R s))
+    with (nth c (map (fun v => exp v / sumexp (map Q2R s)) (map Q2R s)) (exp 0 / sumexp (map Q2R s))).
+  - apply Forall2_nth_encl. apply softmax_i_encl.
+  - apply (map_nth (fun v => exp v / sumexp (map Q2R s))).
+Qed.
+
+Lemma Q2R_indic a b : Q2R (indicQ a b) = indic a b.
+Proof. unfold indicQ, indic. destruct (Nat.eqb a b); unfold Q2R; simpl; lra. Qed.
+
+Lemma map2_map_l {A B C A'} (g : A' -> B -> C) (h : A -> A') (X : list A) :
+  forall y, map2 g (map h X) y = map2 (fun a b => g (h a) b) X y.
+Proof. induction X as [|a X IH]; intros [|b y]; simpl; auto. rewrite IH. reflexivity. Qed.
+
+Lemma Forall2_flat_map_seq {U V} (P : U -> V -> Prop) (f : nat -> list U) (g : nat -> list V) l :
+  (forall j, Forall2 P (f j) (g j)) -> Forall2 P (flat_map f l) (flat_map g l).
+Proof. intros H. induction l; simpl; [constructor|apply Forall2_app'; auto]. Qed.
+
+Lemma r_lincomb_sum_nat (G : list R -> nat -> R) (j : nat) (X : list (list R)) :
+  forall y, r_lincomb (map (fun x => nth j x 0) X) (map2 G X y)
+            = Rsum (map (fun xy => G (fst xy) (snd xy) * nth j (fst xy) 0) (combine X y)).
+Proof.
+  induction X as [|x X IH]; intros [|yi y]; simpl; auto. rewrite IH. unfold Rsum. simpl. lra.
+Qed.
+Lemma fold_sum_map2_nat (G : list R -> nat -> R) (X : list (list R)) :
+  forall y, fold_right Rplus 0 (map2 G X y) = Rsum (map (fun xy => G (fst xy) (snd xy)) (combine X y)).
+Proof. induction X as [|x X IH]; intros [|yi y]; simpl; auto. rewrite IH. reflexivity. Qed.
+
+Lemma Q2R_nth2 j c (W : list (list Q)) :
+  Q2R (nth c (nth j W []) 0%Q) = nth c (nth j (map (map Q2R) W) []) 0.
+Proof.
+  rewrite Q2R_nth. f_equal. change (@nil R) with (map Q2R []). apply eq_sym, map_nth.
+Qed.
+
+Lemma multi_ok_Q_sound k alpha icpt X y W b tau2 :
+  multi_ok_Q k alpha icpt X y W b tau2 = true ->
+  Rsum (map Rsqr (multi_grad k (Q2R alpha) icpt (map (map Q2R) X) y (map (map Q2R) W) (map Q2R b))) <= Q2R tau2.
+Proof.
+  intros H. unfold multi_ok_Q in H. apply andb_true_iff in H as [_ H].
+  set (XR := map (map Q2R) X). set (WR := map (map Q2R) W). set (bR := map Q2R b).
+  set (P := map (fun x => softmax_i (scoresQ k W b x)) X) in *.
+  set (G := fun c (x : list R) (yi : nat) => softmax (scores k WR bR x) c - indic yi c).
+  assert (HD : forall c, Forall2 encl (diffs_i P y c) (map2 (G c) XR y)).
+  { intros c. unfold diffs_i, P, XR. rewrite !map2_map_l. apply Forall2_map2. intros x yi.
+    unfold G. apply encl_sub.
+    - unfold WR, bR. rewrite <- Q2R_scoresQ. apply nth_softmax_encl.
+    - rewrite <- Q2R_indic. apply iv_q_encl. }
+  apply (norm2_le_sound _ (multi_grad k (Q2R alpha) icpt XR y WR bR)) in H; [exact H|].
+  unfold multi_grad_encl, multi_grad. fold P. apply Forall2_app'.
+  - replace (length WR) with (length W) by (unfold WR; rewrite map_length; reflexivity).
+    apply Forall2_flat_map_seq. intros j.
+    apply Forall2_map_seq. intros c. unfold multi_grad_W. apply encl_add.
+    + replace (Rsum _) with (r_lincomb (map Q2R (map (fun x => nth j x 0%Q) X)) (map2 (G c) XR y)).
+      * apply iv_lincomb_encl. apply HD.
+      * rewrite map_map. erewrite map_ext by (intros; apply Q2R_nth).
+        rewrite <- (map_map (map Q2R) (fun x => nth j x 0)). fold XR. apply r_lincomb_sum_nat.
+    + replace (Q2R alpha * nth c (nth j WR []) 0) with (Q2R (alpha * nth c (nth j W []) 0%Q)); [apply iv_q_encl|].
+      rewrite Q2R_mult, Q2R_nth2. reflexivity.
+  - destruct icpt; [|constructor]. apply Forall2_map_seq. intros c.
+    unfold multi_grad_b. rewrite <- (fold_sum_map2_nat (G c)). apply iv_sum_encl. apply HD.
+Qed.
+
+(** * Multinomial objective: partial derivatives *)
+
+Lemma map_set_nth {A B} (f : A -> B) (l : list A) j v : map f (set_nth l j v) = set_nth (map f l) j (f v).
+Proof. revert j; induction l as [|a l IH]; intros [|j]; simpl; auto. rewrite IH; auto. Qed.
+
+Lemma nth_col j c W : nth j (col c W) 0 = nth c (nth j W []) 0.
+Proof.
+  unfold col. replace 0 with (nth c (@nil R) 0) at 1 by (destruct c; reflexivity).
+  apply (map_nth (fun row => nth c row 0)).
+Qed.
+
+Lemma col_set_same W j c t : (c < length (nth j W []))%nat ->
+  col c (set_nth2 W j c t) = set_nth (col c W) j t.
+Proof.
+  intros H. unfold col, set_nth2. rewrite map_set_nth. rewrite nth_set_nth by exact H. reflexivity.
+Qed.
+
+Lemma col_set_other W j c c' t : c' <> c -> col c' (set_nth2 W j c t) = col c' W.
+Proof.
+  intros H. unfold col, set_nth2. rewrite map_set_nth. rewrite nth_set_nth_other by exact H.
+  replace (nth c' (nth j W []) 0) with (nth j (map (fun row => nth c' row 0) W) (nth c' (@nil R) 0)).
+  - apply set_nth_same.
+  - apply (map_nth (fun row => nth c' row 0)).
+Qed.
+
+Lemma set_nth_map_seq (g : nat -> R) c v : forall s k, (s <= c < s + k)%nat ->
+  set_nth (map g (seq s k)) (c - s) v = map (fun c' => if Nat.eqb c' c then v else g c') (seq s k).
+Proof.
+  intros s k; revert s; induction k as [|k IH]; intros s H; [lia|]. simpl.
+  destruct (Nat.eq_dec c s) as [E|E].
+  - subst c. rewrite Nat.sub_diag, Nat.eqb_refl. simpl. f_equal.
+    apply map_ext_in. intros a Ha. apply in_seq in Ha.
+    destruct (Nat.eqb a s) eqn:Eq; [apply Nat.eqb_eq in Eq; lia|reflexivity].
+  - replace (c - s)%nat with (S (c - S s)) by lia. simpl.
+    destruct (Nat.eqb s c) eqn:Eq; [apply Nat.eqb_eq in Eq; lia|].
+    f_equal. apply IH. lia.
+Qed.
+
+Lemma set_nth_map_seq0 (g : nat -> R) c v k : (c < k)%nat ->
+  set_nth (map g (seq 0 k)) c v = map (fun c' => if Nat.eqb c' c then v else g c') (seq 0 k).
+Proof. intros H. rewrite <- (set_nth_map_seq g c v 0 k) by lia. rewrite Nat.sub_0_r. reflexivity. Qed.
+
+Lemma nth_map_seq0 (g : nat -> R) c k : (c < k)%nat -> nth c (map g (seq 0 k)) 0 = g c.
+Proof.
+  intros H. rewrite (nth_indep (map g (seq 0 k)) 0 (g 0%nat)) by (rewrite map_length, seq_length; lia).
+  rewrite map_nth, seq_nth by lia. reflexivity.
+Qed.
+
+Lemma scores_set_W k W b x j c t :
+  (c < k)%nat -> (j < length W)%nat -> (j < length x)%nat -> (c < length (nth j W []))%nat ->
+  scores k (set_nth2 W j c t) b x
+  = set_nth (scores k W b x) c (nth c (scores k W b x) 0 + nth j x 0 * (t - nth c (nth j W []) 0)).
+Proof.
+  intros Hc Hj Hx Hr. unfold scores.
+  rewrite set_nth_map_seq0 by lia.
+  apply map_ext_in. intros c' Hc'. apply in_seq in Hc'.
+  destruct (Nat.eqb c' c) eqn:E.
+  - apply Nat.eqb_eq in E. subst c'. rewrite col_set_same by exact Hr.
+    rewrite Rdot_set_r; [|unfold col; rewrite map_length; exact Hj|exact Hx].
+    rewrite nth_col.
+    rewrite (nth_map_seq0 (fun c0 => Rdot x (col c0 W) + nth c0 b 0)) by lia. ring.
+  - apply Nat.eqb_neq in E. rewrite col_set_other by exact E. reflexivity.
+Qed.
+
+Lemma scores_set_b k W b x c t :
+  (c < k)%nat -> (c < length b)%nat ->
+  scores k W (set_nth b c t) x
+  = set_nth (scores k W b x) c (nth c (scores k W b x) 0 + 1 * (t - nth c b 0)).
+Proof.
+  intros Hc Hb. unfold scores.
+  rewrite set_nth_map_seq0 by lia.
+  apply map_ext_in. intros c' Hc'. apply in_seq in Hc'.
+  destruct (Nat.eqb c' c) eqn:E.
+  - apply Nat.eqb_eq in E. subst c'. rewrite nth_set_nth by exact Hb.
+    rewrite (nth_map_seq0 (fun c0 => Rdot x (col c0 W) + nth c0 b 0)) by lia. ring.
+  - apply Nat.eqb_neq in E. rewrite nth_set_nth_other by exact E. reflexivity.
+Qed.
+
+Lemma sumexp_set s : forall c v, (c < length s)%nat ->
+  sumexp (set_nth s c v) = sumexp s - exp (nth c s 0) + exp v.
+Proof.
+  unfold sumexp. induction s as [|a s IH]; intros [|c] v H; simpl in *; try lia.
+  - unfold Rsum; simpl. lra.
+  - unfold Rsum in *; simpl. rewrite IH by lia. lra.
+Qed.
+
+Lemma sumexp_ge s : forall c, (c < length s)%nat -> exp (nth c s 0) <= sumexp s.
+Proof.
+  unfold sumexp. induction s as [|a s IH]; intros [|c] H; simpl in *; try lia; unfold Rsum in *; simpl.
+  - assert (0 <= fold_right Rplus 0 (map exp s)).
+    { clear. induction s; simpl; [lra|]. pose proof (exp_pos a). lra. }
+    lra.
+  - pose proof (IH c ltac:(lia)). pose proof (exp_pos a). lra.
+Qed.
+
+Lemma sumexp_pos s c : (c < length s)%nat -> 0 < sumexp s.
+Proof. intros H. pose proof (sumexp_ge s c H). pose proof (exp_pos (nth c s 0)). lra. Qed.
+
+(** per-sample term under a perturbation of one score *)
+Lemma multi_ell_derive yi s c a t0 : (c < length s)%nat ->
+  is_derive (fun t => multi_ell yi (set_nth s c (nth c s 0 + a * (t - t0)))) t0
+            ((softmax s c - indic yi c) * a).
+Proof.
+  intros Hc. unfold multi_ell, softmax.
+  pose proof (sumexp_ge s c Hc) as Hge. pose proof (exp_pos (nth c s 0)) as Hpos.
+  set (sc := nth c s 0) in *. set (T := sumexp s) in *.
+  apply is_derive_ext with
+    (f := fun t => ln (T - exp sc + exp (sc + a * (t - t0)))
+                   - (if Nat.eqb yi c then sc + a * (t - t0) else nth yi s 0)).
+  { intros t. rewrite sumexp_set by exact Hc. fold sc T. f_equal.
+    destruct (Nat.eqb yi c) eqn:E.
+    - apply Nat.eqb_eq in E. subst yi. rewrite nth_set_nth by exact Hc. reflexivity.
+    - apply Nat.eqb_neq in E. rewrite nth_set_nth_other by exact E. reflexivity. }
+  unfold indic. destruct (Nat.eqb yi c).
+  - auto_derive.
+    + replace (sc + a * (t0 + - t0)) with sc by ring. lra.
+    + replace (sc + a * (t0 + - t0)) with sc by ring. field. repeat split; lra.
+  - auto_derive.
+    + replace (sc + a * (t0 + - t0)) with sc by ring. lra.
+    + replace (sc + a * (t0 + - t0)) with sc by ring. field. repeat split; lra.
+Qed.
+
+Lemma scores_length k W b x : length (scores k W b x) = k.
+Proof. unfold scores. rewrite map_length, seq_length. reflexivity. Qed.
+
+Lemma frob2_set W : forall j c t, (j < length W)%nat -> (c < length (nth j W []))%nat ->
+  frob2 (set_nth2 W j c t) = frob2 W + (t * t - nth c (nth j W []) 0 * nth c (nth j W []) 0).
+Proof.
+  unfold frob2, set_nth2. induction W as [|r W IH]; intros [|j] c t Hj Hc; simpl in *; try lia.
+  - unfold Rsum; simpl. rewrite Rdot_set_both by exact Hc. lra.
+  - unfold Rsum in *; simpl. rewrite IH by (try lia; exact Hc). lra.
+Qed.
+
+(** partial derivative of the multinomial objective in W[j][c] *)
+Lemma multi_loss_derive_W k alpha X y W b j c :
+  (c < k)%nat -> (j < length W)%nat -> (c < length (nth j W []))%nat ->
+  (forall x, In x X -> length x = length W) ->
+  is_derive (fun t => multi_loss k alpha X y (set_nth2 W j c t) b) (nth c (nth j W []) 0)
+            (multi_grad_W k alpha X y W b j c).
+Proof.
+  intros Hc Hj Hr Hdim. unfold multi_loss, multi_grad_W.
+  set (w0 := nth c (nth j W []) 0).
+  apply (is_derive_plus (V := R_NormedModule)
+           (fun t => Rsum (map (fun xy => multi_ell (snd xy) (scores k (set_nth2 W j c t) b (fst xy))) (combine X y)))
+           (fun t => alpha / 2 * frob2 (set_nth2 W j c t))).
+  - apply (is_derive_Rsum (combine X y)
+             (fun xy t => multi_ell (snd xy) (scores k (set_nth2 W j c t) b (fst xy)))
+             (fun xy => (softmax (scores k W b (fst xy)) c - indic (snd xy) c) * nth j (fst xy) 0)).
+    intros [x yi] Hin. cbn [fst snd].
+    assert (Hx : length x = length W) by (apply Hdim; eapply in_combine_l; exact Hin).
+    apply is_derive_ext with
+      (f := fun t => multi_ell yi (set_nth (scores k W b x) c (nth c (scores k W b x) 0 + nth j x 0 * (t - w0)))).
+    { intros t. rewrite scores_set_W by (try lia; assumption). reflexivity. }
+    apply multi_ell_derive. rewrite scores_length. exact Hc.
+  - apply is_derive_ext with (f := fun t => alpha / 2 * (frob2 W + (t * t - w0 * w0))).
+    { intros t. rewrite frob2_set by assumption. reflexivity. }
+    auto_derive; [exact I|]. change (alpha / 2 * (1 * w0 + w0 * 1) = alpha * w0). field.
+Qed.
+
+(** partial derivative of the multinomial objective in the intercept b[c] *)
+Lemma multi_loss_derive_b k alpha X y W b c :
+  (c < k)%nat -> (c < length b)%nat ->
+  is_derive (fun t => multi_loss k alpha X y W (set_nth b c t)) (nth c b 0) (multi_grad_b k X y W b c).
+Proof.
+  intros Hc Hb. unfold multi_loss, multi_grad_b.
+  eapply is_derive_eq.
+  - apply (is_derive_plus (V := R_NormedModule)
+             (fun t => Rsum (map (fun xy => multi_ell (snd xy) (scores k W (set_nth b c t) (fst xy))) (combine X y)))
+             (fun t => alpha / 2 * frob2 W)).
+    + apply (is_derive_Rsum (combine X y)
+               (fun xy t => multi_ell (snd xy) (scores k W (set_nth b c t) (fst xy)))
+               (fun xy => (softmax (scores k W b (fst xy)) c - indic (snd xy) c) * 1)).
+      intros [x yi] Hin. cbn [fst snd].
+      apply is_derive_ext with
+        (f := fun t => multi_ell yi (set_nth (scores k W b x) c (nth c (scores k W b x) 0 + 1 * (t - nth c b 0)))).
+      { intros t. rewrite scores_set_b by assumption. reflexivity. }
+      apply multi_ell_derive. rewrite scores_length. exact Hc.
+    + apply (is_derive_const (V := R_NormedModule)).
+  - unfold plus. simpl. rewrite (Rplus_0_r _). f_equal. apply map_ext. intros xy. ring.
+Qed.
+
+(** * Label coding *)
+Section LabelProofs.
+Context {C : Type} (ceqb : C -> C -> bool).
+Hypothesis ceqb_spec : forall a b, ceqb a b = true <-> a = b.
+
+Definition cnt (c : C) (l : list C) : N := N.of_nat (length (filter (ceqb c) l)).
+
+Lemma ceqb_refl a : ceqb a a = true.
+Proof. apply ceqb_spec; reflexivity. Qed.
+Lemma ceqb_neq a b : a <> b -> ceqb a b = false.
+Proof. intros H. destruct (ceqb a b) eqn:E; auto. apply ceqb_spec in E. contradiction. Qed.
+
+Lemma cnt_app c p x : cnt c (p ++ [x]) = (cnt c p + (if ceqb c x then 1 else 0))%N.
+Proof.
+  unfold cnt. rewrite filter_app, app_length. simpl. destruct (ceqb c x); simpl; lia.
+Qed.
+
+Lemma cnt_pos c p : In c p -> (1 <= cnt c p)%N.
+Proof.
+  unfold cnt. induction p as [|a p IH]; intros H; [destruct H|]. simpl.
+  destruct H as [H|H].
+  - subst a. rewrite ceqb_refl. simpl. lia.
+  - destruct (ceqb c a); simpl; [lia|apply IH; exact H].
+Qed.
+
+Inductive Inv : option (bin_state (C := C)) -> list C -> Prop :=
+| Inv0 : Inv (Some (None, None)) []
+| Inv1 c1 n1 p : hd_error p = Some c1 -> (forall x, In x p -> x = c1) -> n1 = cnt c1 p ->
+    Inv (Some (Some (c1, n1), None)) p
+| Inv2 c1 n1 c2 n2 p : c1 <> c2 -> (forall x, In x p -> x = c1 \/ x = c2) ->
+    n1 = cnt c1 p -> n2 = cnt c2 p -> In c1 p -> In c2 p -> hd_error p = Some c1 ->
+    Inv (Some (Some (c1, n1), Some (c2, n2))) p
+| Inv3 p a b c : In a p -> In b p -> In c p -> a <> b -> a <> c -> b <> c -> Inv None p.
+
+Lemma hd_error_app (p : list C) x c : hd_error p = Some c -> hd_error (p ++ [x]) = Some c.
+Proof. destruct p; simpl; [discriminate|auto]. Qed.
+
+Lemma Inv_step st p x : Inv st p -> Inv (bin_step ceqb st x) (p ++ [x]).
+Proof.
+  intros H. destruct H as [|c1 n1 p Hh Hall Hn|c1 n1 c2 n2 p Hne Hall Hn1 Hn2 Hi1 Hi2 Hh|p a b c Ha Hb Hc].
+  - simpl. apply Inv1; simpl; auto.
+    + intros y [E|[]]; auto.
+    + unfold cnt; simpl. rewrite ceqb_refl. reflexivity.
+  - cbn [bin_step]. destruct (ceqb c1 x) eqn:E.
+    + apply ceqb_spec in E. subst x. apply Inv1.
+      * apply hd_error_app; exact Hh.
+      * intros y Hy. apply in_app_or in Hy as [Hy|[Hy|[]]]; auto.
+      * rewrite cnt_app, ceqb_refl, Hn. lia.
+    + assert (Hx : c1 <> x) by (intros E'; subst x; rewrite ceqb_refl in E; discriminate).
+      assert (Hin1 : In c1 p) by (destruct p; simpl in Hh; [discriminate|inversion Hh; left; reflexivity]).
+      apply Inv2; auto.
+      * intros y Hy. apply in_app_or in Hy as [Hy|[Hy|[]]]; auto.
+      * rewrite cnt_app, E, Hn. lia.
+      * rewrite cnt_app, ceqb_refl.
+        assert (cnt x p = 0%N).
+        { unfold cnt. replace (filter (ceqb x) p) with (@nil C); [reflexivity|].
+          symmetry. clear -Hall Hx ceqb_spec. induction p as [|a p IH]; simpl; auto.
+          rewrite (Hall a (or_introl eq_refl)). rewrite ceqb_neq by auto.
+          apply IH. intros y Hy. apply Hall. right; exact Hy. }
+        lia.
+      * apply in_or_app; left; exact Hin1.
+      * apply in_or_app; right; left; reflexivity.
+      * apply hd_error_app; exact Hh.
+  - cbn [bin_step]. destruct (ceqb c1 x) eqn:E.
+    + apply ceqb_spec in E. subst x. apply Inv2; auto.
+      * intros y Hy. apply in_app_or in Hy as [Hy|[Hy|[]]]; auto.
+      * rewrite cnt_app, ceqb_refl, Hn1. lia.
+      * rewrite cnt_app, (ceqb_neq c2 c1) by auto. lia.
+      * apply in_or_app; left; exact Hi1.
+      * apply in_or_app; left; exact Hi2.
+      * apply hd_error_app; exact Hh.
+    + destruct (ceqb c2 x) eqn:E2.
+      * apply ceqb_spec in E2. subst x. apply Inv2; auto.
+        -- intros y Hy. apply in_app_or in Hy as [Hy|[Hy|[]]]; auto.
+        -- rewrite cnt_app, E. lia.
+        -- rewrite cnt_app, ceqb_refl, Hn2. lia.
+        -- apply in_or_app; left; exact Hi1.
+        -- apply in_or_app; left; exact Hi2.
+        -- apply hd_error_app; exact Hh.
+      * apply (Inv3 _ c1 c2 x).
+        -- apply in_or_app; left; exact Hi1.
+        -- apply in_or_app; left; exact Hi2.
+        -- apply in_or_app; right; left; reflexivity.
+        -- exact Hne.
+        -- intros E'; subst x; rewrite ceqb_refl in E; discriminate.
+        -- intros E'; subst x; rewrite ceqb_refl in E2; discriminate.
+  - simpl. apply (Inv3 _ a b c); auto; apply in_or_app; left; assumption.
+Qed.
+
+Lemma Inv_fold s : forall st p, Inv st p -> Inv (fold_left (bin_step ceqb) s st) (p ++ s).
+Proof.
+  induction s as [|x s IH]; intros st p H; simpl.
+  - rewrite app_nil_r. exact H.
+  - replace (p ++ x :: s) with ((p ++ [x]) ++ s) by (rewrite <- app_assoc; reflexivity).
+    apply IH. apply Inv_step. exact H.
+Qed.
+
+(** what label_classes returns *)
+Definition bin_coding_spec (y : list C) (r : label_error + bin_labels (C := C)) : Prop :=
+  match r with
+  | inr bl =>
+      bl_pos bl <> bl_neg bl /\
+      (forall x, In x y -> x = bl_pos bl \/ x = bl_neg bl) /\
+      In (bl_pos bl) y /\ In (bl_neg bl) y /\
+      bl_target bl = map (fun x => ceqb x (bl_pos bl)) y /\
+      (cnt (bl_neg bl) y <= cnt (bl_pos bl) y)%N /\
+      (cnt (bl_neg bl) y = cnt (bl_pos bl) y -> hd_error y = Some (bl_pos bl))
+  | inl TooFewClasses => forall a b, In a y -> In b y -> a = b
+  | inl TooManyClasses => exists a b c, In a y /\ In b y /\ In c y /\ a <> b /\ a <> c /\ b <> c
+  end.
+
+Lemma label_classes_spec y : bin_coding_spec y (label_classes ceqb y).
+Proof.
+  unfold label_classes. pose proof (Inv_fold y _ [] Inv0) as H. simpl in H.
+  destruct (fold_left (bin_step ceqb) y (Some (None, None))) as [[[[c1 n1]|] [[c2 n2]|]]|].
+  - inversion H as [| |c1' n1' c2' n2' p Hne Hall Hn1 Hn2 Hi1 Hi2 Hh|]; subst.
+    destruct (N.ltb (cnt c1 y) (cnt c2 y)) eqn:L.
+    + apply N.ltb_lt in L. simpl. repeat split; auto.
+      * intros x Hx. destruct (Hall x Hx); auto.
+      * rewrite map_map. apply map_ext_in. intros x Hx.
+        destruct (Hall x Hx) as [E|E]; subst x.
+        -- rewrite ceqb_refl, (ceqb_neq c1 c2) by auto. reflexivity.
+        -- rewrite ceqb_refl, (ceqb_neq c2 c1) by auto. reflexivity.
+      * lia.
+      * intros E. lia.
+    + apply N.ltb_ge in L. simpl. repeat split; auto.
+  - inversion H as [|c1' n1' p Hh Hall Hn| |]; subst. simpl. intros a b Ha Hb. rewrite (Hall a Ha), (Hall b Hb). reflexivity.
+  - inversion H.
+  - inversion H; subst. simpl. intros a b [].
+  - inversion H; subst. simpl. exists a, b, c. repeat split; assumption.
+Qed.
+
+(** multinomial: sorted distinct classes *)
+Variable cltb : C -> C -> bool.
+Hypothesis ltb_irrefl : forall a, cltb a a = false.
+Hypothesis ltb_trans : forall a b c, cltb a b = true -> cltb b c = true -> cltb a c = true.
+Hypothesis ltb_total : forall a b, a <> b -> cltb a b = true \/ cltb b a = true.
+
+Fixpoint ssorted (l : list C) : Prop :=
+  match l with
+  | a :: ((b :: _) as t) => cltb a b = true /\ ssorted t
+  | _ => True
+  end.
+
+Lemma insert_class_in c l x : In x (insert_class ceqb cltb c l) <-> x = c \/ In x l.
+Proof.
+  induction l as [|a l IH]; simpl.
+  - intuition.
+  - destruct (cltb c a); [simpl; intuition|].
+    destruct (ceqb c a) eqn:E.
+    + apply ceqb_spec in E. subst a. simpl. intuition.
+    + simpl. rewrite IH. intuition.
+Qed.
+
+Lemma insert_class_hd c a l :
+  cltb c a = false -> ceqb c a = false ->
+  match insert_class ceqb cltb c l with x :: _ => x = c \/ (exists t, l = x :: t) | [] => False end.
+Proof. intros _ _. destruct l as [|b l]; simpl; auto. destruct (cltb c b); [left; auto|]. destruct (ceqb c b); right; eauto. Qed.
+
+Lemma insert_class_sorted c l : ssorted l -> ssorted (insert_class ceqb cltb c l).
+Proof.
+  induction l as [|a l IH]; intros H; [exact I|]. cbn [insert_class].
+  destruct (cltb c a) eqn:L; [split; auto|].
+  destruct (ceqb c a) eqn:E; [exact H|].
+  assert (Hac : cltb a c = true).
+  { destruct (ltb_total a c) as [T|T]; auto; [|congruence].
+    intros E'. subst a. rewrite ceqb_refl in E. discriminate. }
+  destruct l as [|b l]; [simpl; auto|].
+  destruct H as [Hab Hs]. specialize (IH Hs).
+  cbn [insert_class] in *. destruct (cltb c b) eqn:L2.
+  - split; [exact Hac|]. exact IH.
+  - destruct (ceqb c b) eqn:E2.
+    + split; [exact Hab|exact IH].
+    + split; [exact Hab|exact IH].
+Qed.
+
+Lemma sorted_classes_spec y :
+  ssorted (sorted_classes ceqb cltb y) /\ (forall c, In c (sorted_classes ceqb cltb y) <-> In c y).
+Proof.
+  unfold sorted_classes.
+  assert (G : forall s acc, ssorted acc ->
+            ssorted (fold_left (fun a c => insert_class ceqb cltb c a) s acc) /\
+            (forall c, In c (fold_left (fun a c => insert_class ceqb cltb c a) s acc) <-> In c acc \/ In c s)).
+  { induction s as [|x s IH]; intros acc Hs; simpl.
+    - split; [exact Hs|intuition].
+    - destruct (IH (insert_class ceqb cltb x acc) (insert_class_sorted x acc Hs)) as [H1 H2].
+      split; [exact H1|]. intros c. rewrite H2, insert_class_in. intuition. }
+  destruct (G y [] I) as [H1 H2]. split; [exact H1|]. intros c. rewrite H2. simpl. intuition.
+Qed.
+
+Lemma ssorted_head_lt a l : ssorted (a :: l) -> forall x, In x l -> cltb a x = true.
+Proof.
+  revert a. induction l as [|b l IH]; intros a H x Hx; [destruct Hx|].
+  destruct H as [Hab Hs]. destruct Hx as [E|Hx]; [subst; exact Hab|].
+  apply (ltb_trans a b x Hab). apply IH; assumption.
+Qed.
+
+Lemma ssorted_nodup l : ssorted l -> NoDup l.
+Proof.
+  induction l as [|a l IH]; intros H; constructor.
+  - intros Hin. pose proof (ssorted_head_lt a l H a Hin) as E. rewrite ltb_irrefl in E. discriminate.
+  - apply IH. destruct l as [|b l]; [exact I|]. destruct H as [_ H]. exact H.
+Qed.
+
+Lemma class_index_spec c l : In c l -> exists i, class_index ceqb c l = Some i /\ nth_error l i = Some c.
+Proof.
+  induction l as [|a l IH]; intros H; [destruct H|]. simpl.
+  destruct (ceqb c a) eqn:E.
+  - apply ceqb_spec in E. subst a. exists 0%nat. auto.
+  - destruct H as [H|H]; [subst a; rewrite ceqb_refl in E; discriminate|].
+    destruct (IH H) as [i [H1 H2]]. exists (S i). rewrite H1. auto.
+Qed.
+
+Lemma label_classes_multi_spec y :
+  let (cl, idx) := label_classes_multi ceqb cltb y in
+  ssorted cl /\ NoDup cl /\ (forall c, In c cl <-> In c y) /\
+  Forall2 (fun yi oi => exists i, oi = Some i /\ nth_error cl i = Some yi) y idx.
+Proof.
+  unfold label_classes_multi. destruct (sorted_classes_spec y) as [H1 H2].
+  split; [exact H1|]. split; [apply ssorted_nodup; exact H1|]. split; [exact H2|].
+  assert (G : forall s, (forall c, In c s -> In c (sorted_classes ceqb cltb y)) ->
+          Forall2 (fun yi oi => exists i, oi = Some i /\ nth_error (sorted_classes ceqb cltb y) i = Some yi)
+                  s (map (fun c => class_index ceqb c (sorted_classes ceqb cltb y)) s)).
+  { induction s as [|a s IH]; intros Hs; simpl; constructor.
+    - destruct (class_index_spec a _ (Hs a (or_introl eq_refl))) as [i [E1 E2]]. exists i. auto.
+    - apply IH. intros c Hc. apply Hs. right; exact Hc. }
+  apply G. intros c Hc. apply H2. exact Hc.
+Qed.
+End LabelProofs.
+
+(** * Decisions, probabilities, supports (real-number instance of the executable models) *)
+Notation oR := R_ops.
+
+Lemma argmax_scan_spec v : forall i best bv pre,
+  length pre = i -> (best < i)%nat -> nth best pre 0 = bv ->
+  (forall j, (j < i)%nat -> nth j pre 0 <= bv) ->
+  (forall j, (j < best)%nat -> nth j pre 0 < bv) ->
+  let r := argmax_scan oR v i best bv in
+  (r < i + length v)%nat /\
+  (forall j, (j < i + length v)%nat -> nth j (pre ++ v) 0 <= nth r (pre ++ v) 0) /\
+  (forall j, (j < r)%nat -> nth j (pre ++ v) 0 < nth r (pre ++ v) 0).
+Proof.
+  induction v as [|a v IH]; intros i best bv pre Hl Hb Hbv Hle Hlt; cbn [argmax_scan].
+  - simpl. rewrite Nat.add_0_r, app_nil_r. rewrite Hbv. repeat split; auto.
+  - cbn [ltb oR]. destruct (Rltb bv a) eqn:E.
+    + apply Rltb_true in E.
+      replace (i + length (a :: v))%nat with (S i + length v)%nat by (simpl; lia).
+      replace (pre ++ a :: v) with ((pre ++ [a]) ++ v) by (rewrite <- app_assoc; reflexivity).
+      apply IH; try lia; [rewrite app_length; simpl; lia| | |].
+      * rewrite app_nth2 by lia. rewrite Hl, Nat.sub_diag. reflexivity.
+      * intros j Hj. destruct (Nat.eq_dec j i) as [->|Hn].
+        -- rewrite app_nth2 by lia. rewrite Hl, Nat.sub_diag. simpl. lra.
+        -- rewrite app_nth1 by lia. specialize (Hle j ltac:(lia)). lra.
+      * intros j Hj. rewrite app_nth1 by lia. specialize (Hle j ltac:(lia)). lra.
+    + apply Rltb_false in E.
+      replace (i + length (a :: v))%nat with (S i + length v)%nat by (simpl; lia).
+      replace (pre ++ a :: v) with ((pre ++ [a]) ++ v) by (rewrite <- app_assoc; reflexivity).
+      apply IH; try lia; [rewrite app_length; simpl; lia| | |].
+      * rewrite app_nth1 by lia. exact Hbv.
+      * intros j Hj. destruct (Nat.eq_dec j i) as [->|Hn].
+        -- rewrite app_nth2 by lia. rewrite Hl, Nat.sub_diag. simpl. exact E.
+        -- rewrite app_nth1 by lia. apply Hle. lia.
+      * intros j Hj. rewrite app_nth1 by lia. apply Hlt. exact Hj.
+Qed.
+
+(** the multinomial decision: the first index holding the largest score *)
+Lemma argmax_first_spec (v : list R) i : argmax_first oR v = Some i ->
+  (i < length v)%nat /\ (forall j, (j < length v)%nat -> nth j v 0 <= nth i v 0) /\
+  (forall j, (j < i)%nat -> nth j v 0 < nth i v 0).
+Proof.
+  destruct v as [|a v]; simpl; [discriminate|]. intros H. inversion H as [E]. clear H.
+  pose proof (argmax_scan_spec v 1 0%nat a [a] eq_refl ltac:(lia) eq_refl) as S.
+  simpl in S. apply S.
+  - intros j Hj. assert (j = 0%nat) by lia. subst j. simpl. lra.
+  - intros j Hj. lia.
+Qed.
+
+Lemma argmax_first_some (v : list R) : v <> [] -> exists i, argmax_first oR v = Some i.
+Proof. destruct v; [congruence|]. simpl. eauto. Qed.
+
+(** the binary decision is exactly "probability >= threshold" *)
+Lemma bin_decide_spec {C} (pos neg : C) (thr p : R) :
+  (thr <= p -> bin_decide oR pos neg thr p = pos) /\ (p < thr -> bin_decide oR pos neg thr p = neg).
+Proof.
+  unfold bin_decide. cbn [leb oR]. split; intros H.
+  - destruct (Rleb thr p) eqn:E; auto. apply Rleb_false in E. lra.
+  - destruct (Rleb thr p) eqn:E; auto. apply Rleb_true in E. lra.
+Qed.
+
+(** the probability the binary model computes is the logistic function of the linear predictor *)
+Lemma logistic_of_exp_R z : logistic_of_exp oR (exp (neg_arg oR z)) = 1 / (1 + exp (- z)).
+Proof. reflexivity. Qed.
+
+(** softmax over the reals *)
+Lemma sumexp_pos' s : s <> [] -> 0 < sumexp s.
+Proof. destruct s as [|a s]; [congruence|]. intros _. apply (sumexp_pos (a :: s) 0). simpl; lia. Qed.
+
+Lemma softmax_unit s c : (c < length s)%nat -> 0 < softmax s c <= 1.
+Proof.
+  intros H. unfold softmax. pose proof (sumexp_ge s c H). pose proof (exp_pos (nth c s 0)).
+  pose proof (sumexp_pos s c H). split.
+  - apply Rdiv_lt_0_compat; lra.
+  - apply Rmult_le_reg_r with (sumexp s); [lra|]. unfold Rdiv. rewrite Rmult_assoc, Rinv_l by lra. lra.
+Qed.
+
+Lemma Rsum_map_div (l : list R) T : Rsum (map (fun v => v / T) l) = Rsum l / T.
+Proof. unfold Rsum. induction l as [|a l IH]; simpl; [unfold Rdiv; ring|rewrite IH; unfold Rdiv; ring]. Qed.
+
+Lemma softmax_sum s : s <> [] -> Rsum (map (softmax s) (seq 0 (length s))) = 1.
+Proof.
+  intros H. pose proof (sumexp_pos' s H) as Hp.
+  replace (map (softmax s) (seq 0 (length s))) with (map (fun v => v / sumexp s) (map exp s)).
+  - rewrite Rsum_map_div. unfold sumexp. field. unfold sumexp in Hp. lra.
+  - unfold softmax. rewrite map_map.
+    clear H Hp. set (T := sumexp s). clearbody T.
+    transitivity (map (fun c => exp (nth c s 0) / T) (seq 0 (length s))); [|reflexivity].
+    assert (G : forall pre, map (fun v => exp v / T) s
+                 = map (fun c => exp (nth c (pre ++ s) 0) / T) (seq (length pre) (length s))).
+    { induction s as [|a s IH]; intros pre; simpl; auto. f_equal.
+      - rewrite app_nth2 by lia. rewrite Nat.sub_diag. reflexivity.
+      - specialize (IH (pre ++ [a])). rewrite app_length in IH. simpl in IH.
+        rewrite <- app_assoc in IH. simpl in IH. replace (S (length pre)) with (length pre + 1)%nat by lia. exact IH. }
+    exact (G []).
+Qed.
+
+(** ndarray's unrolled sum is the plain sum over the reals *)
+Lemma chunks8_R : forall n (xs p : list R), (length xs <= n)%nat -> length p = 8%nat ->
+  let '(p', rest) := chunks8 oR xs p in
+  length p' = 8%nat /\ Rsum p' + Rsum rest = Rsum p + Rsum xs.
+Proof.
+  induction n as [|n IH]; intros xs p Hn Hp.
+  - destruct xs; [|simpl in Hn; lia]. simpl. auto.
+  - destruct xs as [|x0 [|x1 [|x2 [|x3 [|x4 [|x5 [|x6 [|x7 t]]]]]]]]; try (simpl; split; [exact Hp|reflexivity]).
+    cbn [chunks8].
+    destruct p as [|p0 [|p1 [|p2 [|p3 [|p4 [|p5 [|p6 [|p7 [|]]]]]]]]]; simpl in Hp; try lia.
+    cbn [combine map fst snd add oR].
+    specialize (IH t [p0 + x0; p1 + x1; p2 + x2; p3 + x3; p4 + x4; p5 + x5; p6 + x6; p7 + x7]).
+    destruct (chunks8 oR t _) as [p' rest].
+    destruct IH as [H1 H2]; [simpl in Hn; lia|reflexivity|].
+    split; [exact H1|]. rewrite H2. unfold Rsum. simpl. lra.
+Qed.
+
+Lemma fold_left_Rplus (l : list R) a : fold_left Rplus l a = a + Rsum l.
+Proof. revert a; induction l as [|x l IH]; intros a; simpl; [unfold Rsum; simpl; lra|]. rewrite IH. unfold Rsum; simpl. lra. Qed.
+
+Lemma usum_R (xs : list R) : usum oR xs = Rsum xs.
+Proof.
+  unfold usum. pose proof (chunks8_R (length xs) xs [0;0;0;0;0;0;0;0] (le_n _) eq_refl) as H.
+  cbn [zero oR]. destruct (chunks8 oR xs [0; 0; 0; 0; 0; 0; 0; 0]) as [p' rest].
+  destruct H as [H1 H2].
+  destruct p' as [|p0 [|p1 [|p2 [|p3 [|p4 [|p5 [|p6 [|p7 [|]]]]]]]]]; simpl in H1; try lia.
+  cbn [add oR]. rewrite fold_left_Rplus. unfold Rsum in *. simpl in *. lra.
+Qed.
+
+(** the executable softmax (sum through unrolled_fold) normalises any positive exps *)
+Lemma softmax_of_exps_R (es : list R) : (forall e, In e es -> 0 < e) -> es <> [] ->
+  Rsum (softmax_of_exps oR es) = 1 /\ (forall p, In p (softmax_of_exps oR es) -> 0 < p <= 1).
+Proof.
+  intros Hpos Hne. unfold softmax_of_exps. rewrite usum_R. cbn [div oR].
+  assert (Hs : forall l, (forall e, In e l -> 0 < e) -> 0 <= Rsum l /\ forall e, In e l -> e <= Rsum l).
+  { induction l as [|a l IH]; intros H; unfold Rsum in *; simpl; [split; [lra|intros e []]|].
+    destruct IH as [I1 I2]; [intros e He; apply H; right; exact He|].
+    pose proof (H a (or_introl eq_refl)). split; [lra|]. intros e [E|E]; [subst; lra|].
+    specialize (I2 e E). lra. }
+  destruct (Hs es Hpos) as [H0 H1].
+  assert (HT : 0 < Rsum es).
+  { destruct es as [|a es]; [congruence|]. pose proof (Hpos a (or_introl eq_refl)).
+    pose proof (H1 a (or_introl eq_refl)). lra. }
+  split.
+  - rewrite Rsum_map_div. field. lra.
+  - intros p Hp. apply in_map_iff in Hp as [e [E He]]. subst p. pose proof (Hpos e He). pose proof (H1 e He).
+    split; [apply Rdiv_lt_0_compat; lra|].
+    apply Rmult_le_reg_r with (Rsum es); [lra|]. unfold Rdiv. rewrite Rmult_assoc, Rinv_l by lra. lra.
+Qed.
+
+(** Tweedie supports *)
+Lemma tweedie_support_spec (p : R) :
+  match tweedie_support oR p with
+  | SupAll => p <= 0
+  | SupInvalid => 0 < p < 1
+  | SupNonNeg => 1 <= p < 2
+  | SupPos => 2 <= p
+  end.
+Proof.
+  unfold tweedie_support, two. cbn [leb ltb oR zero one add].
+  destruct (Rleb p 0) eqn:E1; [apply Rleb_true in E1; exact E1|apply Rleb_false in E1].
+  destruct (Rltb 0 p) eqn:E2; [apply Rltb_true in E2|apply Rltb_false in E2; lra].
+  destruct (Rltb p 1) eqn:E3; [apply Rltb_true in E3; simpl; lra|apply Rltb_false in E3]. simpl.
+  destruct (Rleb 1 p) eqn:E4; [|apply Rleb_false in E4; lra].
+  destruct (Rltb p (1 + 1)) eqn:E5; [apply Rltb_true in E5; simpl; lra|apply Rltb_false in E5]. simpl.
+  destruct (Rleb (1 + 1) p) eqn:E6; [apply Rleb_true in E6; lra|apply Rleb_false in E6; lra].
+Qed.
+
+Lemma in_range_spec (s : support) (y : list R) :
+  in_range oR s y = true <->
+  match s with
+  | SupAll => True
+  | SupNonNeg => forall v, In v y -> 0 <= v
+  | SupPos => forall v, In v y -> 0 < v
+  | SupInvalid => False
+  end.
+Proof.
+  destruct s; simpl; try (split; [auto|reflexivity]).
+  - rewrite forallb_forall. cbn [leb oR zero]. split; intros H v Hv; specialize (H v Hv).
+    + apply Rleb_true. exact H.
+    + apply Rleb_true. exact H.
+  - rewrite forallb_forall. cbn [ltb oR zero]. split; intros H v Hv; specialize (H v Hv).
+    + apply Rltb_true. exact H.
+    + apply Rltb_true. exact H.
+  - split; [discriminate|intros []].
+Qed.
+
+(** * From floats: soundness of the checkers run on the implementation's outputs *)
+Lemma rmat_qmat X : map (map Q2R) (qmat X) = rmat X.
+Proof. unfold qmat, rmat, qvec, rvec. rewrite map_map. apply map_ext. intros r. rewrite map_map. reflexivity. Qed.
+Lemma rvec_qvec v : map Q2R (qvec v) = rvec v.
+Proof. unfold qvec, rvec. rewrite map_map. reflexivity. Qed.
+
+Lemma Q2R_tau2 tol : Q2R (tau2_of tol) = tauR tol * tauR tol.
+Proof.
+  unfold tau2_of, tauR, f64_R. rewrite Q2R_Qred, !Q2R_mult.
+  replace (Q2R (1025 # 1024)) with (1025 / 1024) by (unfold Q2R; simpl; lra). reflexivity.
+Qed.
+
+Lemma bin_ok_sound alpha icpt X t w b tol : bin_ok alpha icpt X t w b tol = true ->
+  Rsum (map Rsqr (glin_grad bin_phi (f64_R alpha) icpt (rmat X) (map sign_R t) (rvec w) (f64_R b)))
+  <= tauR tol * tauR tol.
+Proof.
+  unfold bin_ok. intros H. apply andb_true_iff in H as [_ H]. apply andb_true_iff in H as [_ H].
+  apply bin_ok_Q_sound in H. rewrite rmat_qmat, rvec_qvec, Q2R_tau2 in H. exact H.
+Qed.
+
+Lemma glm_ok_sound p l alpha icpt X y w b tol : glm_ok p l alpha icpt X y w b tol = true ->
+  Rsum (map Rsqr (glin_grad (glm_phi (ddev_of (f64_Q p)) l) (f64_R alpha) icpt (rmat X) (rvec y) (rvec w) (f64_R b)))
+  <= tauR tol * tauR tol.
+Proof.
+  unfold glm_ok. intros H. apply andb_true_iff in H as [_ H]. apply andb_true_iff in H as [_ H].
+  apply glm_ok_Q_sound in H. rewrite rmat_qmat, !rvec_qvec, Q2R_tau2 in H. exact H.
+Qed.
+
+Lemma multi_ok_sound k alpha icpt X y W b tol : multi_ok k alpha icpt X y W b tol = true ->
+  Rsum (map Rsqr (multi_grad k (f64_R alpha) icpt (rmat X) y (rmat W) (rvec b))) <= tauR tol * tauR tol.
+Proof.
+  unfold multi_ok. intros H. apply andb_true_iff in H as [_ H]. apply andb_true_iff in H as [_ H].
+  apply multi_ok_Q_sound in H. rewrite !rmat_qmat, rvec_qvec, Q2R_tau2 in H. exact H.
+Qed.
+
+(** a bound on the Euclidean norm bounds every component *)
+Lemma sumsq_component (l : list R) T g : 0 <= T -> Rsum (map Rsqr l) <= T * T -> In g l -> Rabs g <= T.
+Proof.
+  intros HT H Hin.
+  assert (Hg : Rsqr g <= Rsum (map Rsqr l)).
+  { clear H. induction l as [|a l IH]; [destruct Hin|]. unfold Rsum in *; simpl.
+    assert (Hnn : forall m : list R, 0 <= fold_right Rplus 0 (map Rsqr m)).
+    { induction m; simpl; [lra|]. pose proof (Rle_0_sqr a0). lra. }
+    destruct Hin as [E|Hin]; [subst a; pose proof (Hnn l); lra|].
+    specialize (IH Hin). pose proof (Rle_0_sqr a). lra. }
+  assert (H2 : Rsqr g <= Rsqr T) by (unfold Rsqr at 2; lra).
+  apply Rsqr_le_abs_0 in H2. rewrite (Rabs_right T) in H2 by lra. exact H2.
+Qed.
+
+Lemma tauR_nonneg tol : 0 <= f64_R tol -> 0 <= tauR tol.
+Proof. intros H. unfold tauR. apply Rmult_le_pos; lra. Qed.
+
+Lemma tol_nonneg tol : Qle_bool 0 (f64_Q tol) = true -> 0 <= tauR tol.
+Proof.
+  intros H. apply tauR_nonneg. unfold f64_R. apply Qle_bool_iff in H. apply Qle_Rle in H.
+  rewrite RMicromega.Q2R_0 in H. exact H.
+Qed.
+
+(** * The certificates: what a successful checker run establishes *)
+Lemma binary_certified alpha icpt X t w b tol :
+  bin_ok alpha icpt X t w b tol = true ->
+  (forall x, In x (rmat X) -> length x = length (rvec w)) ->
+  let L := bin_loss (f64_R alpha) (rmat X) (map sign_R t) in
+  let g := glin_grad bin_phi (f64_R alpha) icpt (rmat X) (map sign_R t) (rvec w) (f64_R b) in
+  (forall j, (j < length (rvec w))%nat ->
+     is_derive (fun s => L (set_nth (rvec w) j s) (f64_R b)) (nth j (rvec w) 0)
+               (bin_grad_w (f64_R alpha) (rmat X) (map sign_R t) (rvec w) (f64_R b) j)) /\
+  is_derive (fun s => L (rvec w) s) (f64_R b) (bin_grad_b (rmat X) (map sign_R t) (rvec w) (f64_R b)) /\
+  Rsum (map Rsqr g) <= tauR tol * tauR tol /\
+  (forall gj, In gj g -> Rabs gj <= tauR tol).
+Proof.
+  intros H Hdim L g.
+  assert (Hd : forall x yi, In (x, yi) (combine (rmat X) (map sign_R t)) ->
+               is_derive (bin_ell yi) (lin x (rvec w) (f64_R b)) (bin_phi yi (lin x (rvec w) (f64_R b)))).
+  { intros x yi _. apply bin_ell_derive. }
+  pose proof (bin_ok_sound _ _ _ _ _ _ _ H) as Hs. fold g in Hs.
+  assert (Ht : 0 <= tauR tol).
+  { unfold bin_ok in H. apply andb_true_iff in H as [H _]. apply tol_nonneg; exact H. }
+  split; [|split; [|split]].
+  - intros j Hj. unfold L, bin_loss, bin_grad_w.
+    eapply is_derive_eq; [apply (glin_obj_derive_w bin_ell bin_phi (f64_R alpha / 2)); assumption|].
+    unfold glin_grad_w. f_equal. field.
+  - unfold L, bin_loss, bin_grad_b. apply glin_obj_derive_b. exact Hd.
+  - exact Hs.
+  - intros gj Hg. apply (sumsq_component g); assumption.
+Qed.
+
+(** targets in the support of the deviance family and a link with positive means *)
+Definition glm_family_ok (p : Q) (l : link) (dev : R -> R -> R) : Prop :=
+  (Qeq_bool p 0 = true /\ dev = dev_normal) \/
+  (Qeq_bool p 0 = false /\ l <> Identity /\
+   ((Q2R p = 1 /\ dev = dev_poisson) \/ (Q2R p = 2 /\ dev = dev_gamma) \/
+    (Q2R p <> 1 /\ Q2R p <> 2 /\ dev = dev_general (Q2R p)))).
+Definition glm_targets_ok (p : Q) (y : list R) : Prop :=
+  Qeq_bool p 0 = true \/ (Q2R p = 2 /\ forall v, In v y -> 0 < v) \/ (Q2R p <> 2 /\ forall v, In v y -> 0 <= v).
+
+Lemma glm_sample_derive p l dev y z :
+  glm_family_ok p l dev -> (Qeq_bool p 0 = true \/ (Q2R p = 2 /\ 0 < y) \/ (Q2R p <> 2 /\ 0 <= y)) ->
+  is_derive (glm_ell dev l y) z (glm_phi (ddev_of p) l y z).
+Proof.
+  intros Hf Hy. apply glm_ell_derive. unfold ddev_of.
+  destruct Hf as [[E D]|[E [Hl D]]]; rewrite E; subst.
+  - apply dev_normal_derive.
+  - pose proof (inv_link_pos l z Hl) as Hmu.
+    destruct Hy as [Hy|Hy]; [congruence|].
+    destruct D as [[P D]|[[P D]|[P1 [P2 D]]]]; subst dev.
+    + rewrite P. apply dev_poisson_derive; [|exact Hmu]. destruct Hy as [[Q _]|[_ Q]]; [lra|exact Q].
+    + rewrite P. apply dev_gamma_derive; [|exact Hmu]. destruct Hy as [[_ Q]|[Q _]]; [exact Q|contradiction].
+    + apply dev_general_derive; assumption.
+Qed.
+
+Lemma glm_certified p l dev alpha icpt X y w b tol :
+  glm_ok p l alpha icpt X y w b tol = true ->
+  glm_family_ok (f64_Q p) l dev -> glm_targets_ok (f64_Q p) (rvec y) ->
+  (forall x, In x (rmat X) -> length x = length (rvec w)) ->
+  let L := glm_loss dev l (f64_R alpha) (rmat X) (rvec y) in
+  let g := glin_grad (glm_phi (ddev_of (f64_Q p)) l) (f64_R alpha) icpt (rmat X) (rvec y) (rvec w) (f64_R b) in
+  (forall j, (j < length (rvec w))%nat ->
+     is_derive (fun s => L (set_nth (rvec w) j s) (f64_R b)) (nth j (rvec w) 0)
+               (glm_grad_w (ddev_of (f64_Q p)) l (f64_R alpha) (rmat X) (rvec y) (rvec w) (f64_R b) j)) /\
+  is_derive (fun s => L (rvec w) s) (f64_R b) (glm_grad_b (ddev_of (f64_Q p)) l (rmat X) (rvec y) (rvec w) (f64_R b)) /\
+  Rsum (map Rsqr g) <= tauR tol * tauR tol /\
+  (forall gj, In gj g -> Rabs gj <= tauR tol).
+Proof.
+  intros H Hf Hy Hdim L g.
+  assert (Hd : forall x yi, In (x, yi) (combine (rmat X) (rvec y)) ->
+               is_derive (glm_ell dev l yi) (lin x (rvec w) (f64_R b))
+                         (glm_phi (ddev_of (f64_Q p)) l yi (lin x (rvec w) (f64_R b)))).
+  { intros x yi Hin. apply glm_sample_derive; [exact Hf|].
+    apply in_combine_r in Hin. destruct Hy as [E|[[E Q]|[E Q]]]; auto. }
+  pose proof (glm_ok_sound _ _ _ _ _ _ _ _ _ H) as Hs. fold g in Hs.
+  assert (Ht : 0 <= tauR tol).
+  { unfold glm_ok in H. apply andb_true_iff in H as [H _]. apply tol_nonneg; exact H. }
+  split; [|split; [|split]].
+  - intros j Hj. unfold L, glm_loss, glm_grad_w.
+    eapply is_derive_eq; [apply (glin_obj_derive_w (glm_ell dev l) (glm_phi (ddev_of (f64_Q p)) l) (f64_R alpha / 2)); assumption|].
+    unfold glin_grad_w. f_equal. field.
+  - unfold L, glm_loss, glm_grad_b. apply glin_obj_derive_b. exact Hd.
+  - exact Hs.
+  - intros gj Hg. apply (sumsq_component g); assumption.
+Qed.
+
+Lemma multi_certified k alpha icpt X y W b tol :
+  multi_ok k alpha icpt X y W b tol = true ->
+  (forall x, In x (rmat X) -> length x = length (rmat W)) ->
+  let L := multi_loss k (f64_R alpha) (rmat X) y in
+  let g := multi_grad k (f64_R alpha) icpt (rmat X) y (rmat W) (rvec b) in
+  (forall j c, (j < length (rmat W))%nat -> (c < k)%nat ->
+     is_derive (fun s => L (set_nth2 (rmat W) j c s) (rvec b)) (nth c (nth j (rmat W) []) 0)
+               (multi_grad_W k (f64_R alpha) (rmat X) y (rmat W) (rvec b) j c)) /\
+  (forall c, (c < k)%nat ->
+     is_derive (fun s => L (rmat W) (set_nth (rvec b) c s)) (nth c (rvec b) 0)
+               (multi_grad_b k (rmat X) y (rmat W) (rvec b) c)) /\
+  Rsum (map Rsqr g) <= tauR tol * tauR tol /\
+  (forall gj, In gj g -> Rabs gj <= tauR tol).
+Proof.
+  intros H Hdim L g.
+  pose proof (multi_ok_sound _ _ _ _ _ _ _ _ H) as Hs. fold g in Hs.
+  assert (Ht : 0 <= tauR tol).
+  { unfold multi_ok in H. apply andb_true_iff in H as [H _]. apply tol_nonneg; exact H. }
+  assert (Hshape : length (rvec b) = k /\ forall row, In row (rmat W) -> length row = k).
+  { unfold multi_ok in H. apply andb_true_iff in H as [_ H].
+    repeat (apply andb_true_iff in H as [H ?]).
+    split.
+    - unfold rvec. rewrite map_length. apply Nat.eqb_eq. assumption.
+    - intros row Hr. unfold rmat in Hr. apply in_map_iff in Hr as [r0 [E Hr]]. subst row.
+      unfold rvec. rewrite map_length.
+      match goal with Hf : forallb _ W = true |- _ => rewrite forallb_forall in Hf; apply Nat.eqb_eq; apply Hf; exact Hr end. }
+  destruct Hshape as [Hb HW].
+  split; [|split; [|split]].
+  - intros j c Hj Hc. pose proof (HW (nth j (rmat W) []) (nth_In _ _ Hj)) as Hrow.
+    apply multi_loss_derive_W; try assumption. lia.
+  - intros c Hc. apply multi_loss_derive_b; [exact Hc|].
+    exact (eq_ind_r (fun n => (c < n)%nat) Hc Hb).
+  - exact Hs.
+  - intros gj Hg. apply (sumsq_component g); assumption.
+Qed.
+
+(** * Non-vacuity: concrete inputs accepted by the checkers (evaluated by the kernel) *)
+Example bin_ok_example :
+  bin_ok 1%float true [[0]; [1]; [0]; [1]]%float [true; false; false; true] [0]%float 0%float 0x1p-13%float = true.
+Proof. vm_compute. reflexivity. Qed.
+
+Example bin_ok_rejects :
+  bin_ok 1%float true [[0]; [1]; [0]; [1]]%float [true; false; false; true] [0x1p-3]%float 0%float 0x1p-13%float = false.
+Proof. vm_compute. reflexivity. Qed.
+
+Example glm_ok_example :
+  glm_ok 1%float Log 0%float true [[0]; [1]; [0]; [1]]%float [1; 3; 3; 1]%float [0]%float 0x1.62e42fefa39efp-1%float 0x1p-13%float = true.
+Proof. vm_compute. reflexivity. Qed.
+
+Example multi_ok_example :
+  multi_ok 2 1%float true [[0]; [1]; [0]; [1]]%float [0%nat; 1%nat; 1%nat; 0%nat] [[0; 0]]%float [0; 0]%float 0x1p-13%float = true.
+Proof. vm_compute. reflexivity. Qed.
+
+Example label_classes_example :
+  label_classes N.eqb [3; 5; 5; 3; 5]%N = inr {| bl_pos := 5%N; bl_neg := 3%N; bl_target := [false; true; true; false; true] |}.
+Proof. reflexivity. Qed.
+Example label_classes_tie_example :
+  label_classes N.eqb [3; 5; 5; 3]%N = inr {| bl_pos := 3%N; bl_neg := 5%N; bl_target := [true; false; false; true] |}.
+Proof. reflexivity. Qed.
+Example label_classes_multi_example :
+  label_classes_multi N.eqb N.ltb [7; 2; 9; 2]%N = ([2; 7; 9]%N, [Some 1%nat; Some 0%nat; Some 2%nat; Some 0%nat]).
+Proof. reflexivity. Qed.
+
+(** * T2: convexity - a point that is stationary up to tau is optimal up to tau |theta' - theta|_1 *)
+Lemma bin_ell_tangent y z z' : bin_ell y z + bin_phi y z * (z' - z) <= bin_ell y z'.
+Proof.
+  unfold bin_ell, bin_phi.
+  set (u := y * z). set (d := y * z' - u).
+  replace (y * z') with (u + d) by (unfold d; ring).
+  replace (- y / (1 + exp u) * (z' - z)) with (- (1 / (1 + exp u)) * d) by (unfold d, u; field; pose proof (exp_pos (y * z)); lra).
+  set (q := 1 / (1 + exp u)).
+  pose proof (exp_pos u) as Hu. pose proof (exp_pos (- u)) as Hnu.
+  assert (Hq : 0 < q < 1).
+  { unfold q. split; [apply Rdiv_lt_0_compat; lra|].
+    apply Rmult_lt_reg_r with (1 + exp u); [lra|]. unfold Rdiv. rewrite Rmult_assoc, Rinv_l by lra. lra. }
+  assert (Hq2 : exp (- u) / (1 + exp (- u)) = q).
+  { unfold q. rewrite exp_Ropp. field. split; lra. }
+  (* (1 + e^{-(u+d)}) = (1 + e^{-u}) ((1-q) + q e^{-d}) *)
+  assert (HA : 1 + exp (- (u + d)) = (1 + exp (- u)) * ((1 - q) + q * exp (- d))).
+  { rewrite <- Hq2. replace (- (u + d)) with (- u + - d) by ring. rewrite exp_plus. field. lra. }
+  assert (Hconv : exp (- q * d) <= (1 - q) + q * exp (- d)).
+  { pose proof (exp_ineq1_le (q * d)) as E1. pose proof (exp_ineq1_le (- (1 - q) * d)) as E2.
+    assert (E3 : exp (- d) * exp (q * d) = exp (- (1 - q) * d)).
+    { rewrite <- exp_plus. f_equal. ring. }
+    pose proof (exp_pos (q * d)) as P1.
+    assert (H1 : 1 <= ((1 - q) + q * exp (- d)) * exp (q * d)).
+    { replace (((1 - q) + q * exp (- d)) * exp (q * d)) with ((1 - q) * exp (q * d) + q * (exp (- d) * exp (q * d))) by ring.
+      rewrite E3. nra. }
+    replace (- q * d) with (- (q * d)) by ring. rewrite exp_Ropp.
+    apply Rmult_le_reg_r with (exp (q * d)); [exact P1|]. rewrite Rinv_l by lra. exact H1. }
+  rewrite HA. rewrite ln_mult; [|lra|pose proof (exp_pos (- q * d)); lra].
+  assert (Hln : - q * d <= ln ((1 - q) + q * exp (- d))).
+  { rewrite <- (ln_exp (- q * d)). pose proof (exp_pos (- q * d)) as P.
+    destruct Hconv as [Hlt|Heq]; [left; apply ln_increasing; assumption|right; rewrite Heq; reflexivity]. }
+  lra.
+Qed.
+
+Definition vsub (a b : list R) : list R := map2 Rminus a b.
+Definition l1norm (d : list R) : R := Rsum (map Rabs d).
+
+Lemma Rdot_vsub x : forall w' w, length w' = length w ->
+  Rdot x w' - Rdot x w = Rdot x (vsub w' w).
+Proof.
+  induction x as [|a x IH]; intros [|b' w'] [|b w] H; simpl in *; try lia; try lra.
+  unfold vsub in *. simpl. rewrite <- IH by lia. lra.
+Qed.
+
+Lemma Rdot_sq_lower w' : forall w, length w' = length w ->
+  Rdot w w + 2 * Rdot w (vsub w' w) <= Rdot w' w'.
+Proof.
+  induction w' as [|a' w' IH]; intros [|a w] H; simpl in *; try lia; try lra.
+  unfold vsub in *. simpl. specialize (IH w ltac:(lia)).
+  pose proof (Rle_0_sqr (a' - a)) as Hsq. unfold Rsqr in Hsq.
+  set (P := Rdot w (map2 Rminus w' w)) in *. set (Q1 := Rdot w w) in *. set (Q2 := Rdot w' w') in *. nra.
+Qed.
+
+Lemma map_nth_seq (x : list R) : map (fun j => nth j x 0) (seq 0 (length x)) = x.
+Proof.
+  assert (G : forall pre, map (fun j => nth j (pre ++ x) 0) (seq (length pre) (length x)) = x).
+  { induction x as [|a x IH]; intros pre; simpl; auto. f_equal.
+    - rewrite app_nth2 by lia. rewrite Nat.sub_diag. reflexivity.
+    - specialize (IH (pre ++ [a])). rewrite app_length in IH. simpl in IH. rewrite <- app_assoc in IH. simpl in IH.
+      replace (S (length pre)) with (length pre + 1)%nat by lia. exact IH. }
+  exact (G []).
+Qed.
+
+Lemma Rdot_map_add (f g : nat -> R) l d :
+  Rdot (map (fun j => f j + g j) l) d = Rdot (map f l) d + Rdot (map g l) d.
+Proof. revert d; induction l as [|a l IH]; intros [|b d]; simpl; try lra. rewrite IH. lra. Qed.
+Lemma Rdot_map_scal c (f : nat -> R) l d : Rdot (map (fun j => c * f j) l) d = c * Rdot (map f l) d.
+Proof. revert d; induction l as [|a l IH]; intros [|b d]; simpl; try lra. rewrite IH. lra. Qed.
+Lemma Rdot_map_zero l d : Rdot (map (fun _ : nat => 0) l) d = 0.
+Proof. revert d; induction l as [|a l IH]; intros [|b d]; simpl; try lra. rewrite IH. lra. Qed.
+
+(** exchange of the sum over samples and the sum over coordinates *)
+Lemma sum_dot_exchange {A} (F : A -> R) (row : A -> list R) (l : list A) (d : list R) :
+  (forall a, In a l -> length (row a) = length d) ->
+  Rsum (map (fun a => F a * Rdot (row a) d) l)
+  = Rdot (map (fun j => Rsum (map (fun a => F a * nth j (row a) 0) l)) (seq 0 (length d))) d.
+Proof.
+  induction l as [|a l IH]; intros H; unfold Rsum in *; simpl.
+  - rewrite Rdot_map_zero. reflexivity.
+  - rewrite IH; [|intros a0 Ha0; apply H; right; exact Ha0].
+    rewrite (Rdot_map_add (fun j => F a * nth j (row a) 0)), Rdot_map_scal.
+    rewrite <- (H a (or_introl eq_refl)), map_nth_seq. reflexivity.
+Qed.
+
+Lemma l1norm_nonneg d : 0 <= l1norm d.
+Proof. unfold l1norm, Rsum. induction d as [|a d IH]; simpl; [lra|]. pose proof (Rabs_pos a). lra. Qed.
+
+Lemma Rdot_lower_bound (g : list R) tau : 0 <= tau -> forall d, (forall gj, In gj g -> Rabs gj <= tau) ->
+  - tau * l1norm d <= Rdot g d.
+Proof.
+  intros Ht. induction g as [|a g IH]; intros d H.
+  - pose proof (l1norm_nonneg d). destruct d; simpl; nra.
+  - destruct d as [|b d]; [unfold l1norm, Rsum; simpl; lra|].
+    specialize (IH d (fun gj Hg => H gj (or_intror Hg))).
+    pose proof (H a (or_introl eq_refl)) as Ha.
+    assert (Hab : - tau * Rabs b <= a * b).
+    { assert (H0 : Rabs (a * b) <= tau * Rabs b) by (rewrite Rabs_mult; pose proof (Rabs_pos b); nra).
+      pose proof (Rle_abs (- (a * b))) as H1. rewrite Rabs_Ropp in H1. lra. }
+    unfold l1norm, Rsum in *. simpl. lra.
+Qed.
+
+Lemma Rsum_split_lin {A} (F G : A -> R) e (l : list A) :
+  Rsum (map (fun a => F a * (G a + e)) l) = Rsum (map (fun a => F a * G a) l) + Rsum (map F l) * e.
+Proof. unfold Rsum. induction l as [|a l IH]; simpl; [lra|]. rewrite IH. ring. Qed.
+
+Lemma logistic_first_order alpha X y w b w' b' :
+  0 <= alpha -> length w' = length w -> (forall x, In x X -> length x = length w) ->
+  bin_loss alpha X y w b
+  + Rdot (map (bin_grad_w alpha X y w b) (seq 0 (length w))) (vsub w' w)
+  + bin_grad_b X y w b * (b' - b)
+  <= bin_loss alpha X y w' b'.
+Proof.
+  intros Ha Hl Hdim. unfold bin_loss, bin_grad_w, bin_grad_b, glin_obj, glin_grad_w, glin_grad_b.
+  set (d := vsub w' w). set (e := b' - b).
+  assert (Hd : length d = length w). { unfold d, vsub. clear -Hl. revert w Hl. induction w' as [|a w' IH]; intros [|c w] H; simpl in *; try lia. rewrite IH; lia. }
+  (* per-sample tangent inequality, summed *)
+  assert (Hs : Rsum (map (fun xy => bin_ell (snd xy) (lin (fst xy) w b)) (combine X y))
+               + Rsum (map (fun xy => bin_phi (snd xy) (lin (fst xy) w b) * (Rdot (fst xy) d + e)) (combine X y))
+               <= Rsum (map (fun xy => bin_ell (snd xy) (lin (fst xy) w' b')) (combine X y))).
+  { assert (G : forall l : list (list R * R), (forall xy, In xy l -> length (fst xy) = length w) ->
+        Rsum (map (fun xy => bin_ell (snd xy) (lin (fst xy) w b)) l)
+        + Rsum (map (fun xy => bin_phi (snd xy) (lin (fst xy) w b) * (Rdot (fst xy) d + e)) l)
+        <= Rsum (map (fun xy => bin_ell (snd xy) (lin (fst xy) w' b')) l)).
+    { induction l as [|[x yi] l IH]; intros H; unfold Rsum in *; simpl; [lra|].
+      specialize (IH (fun xy Hxy => H xy (or_intror Hxy))).
+      pose proof (bin_ell_tangent yi (lin x w b) (lin x w' b')) as T.
+      replace (lin x w' b' - lin x w b) with (Rdot x d + e) in T.
+      - lra.
+      - unfold lin, d, e. rewrite <- Rdot_vsub by exact Hl. ring. }
+    apply G. intros [x yi] Hin. simpl. apply Hdim. eapply in_combine_l; exact Hin. }
+  (* split the linear term and exchange the sums *)
+  assert (Hx : Rsum (map (fun xy => bin_phi (snd xy) (lin (fst xy) w b) * (Rdot (fst xy) d + e)) (combine X y))
+               = Rdot (map (fun j => Rsum (map (fun xy => bin_phi (snd xy) (lin (fst xy) w b) * nth j (fst xy) 0) (combine X y))) (seq 0 (length w))) d
+                 + Rsum (map (fun xy => bin_phi (snd xy) (lin (fst xy) w b)) (combine X y)) * e).
+  { rewrite <- Hd.
+    rewrite <- (sum_dot_exchange (fun xy => bin_phi (snd xy) (lin (fst xy) w b)) fst (combine X y) d).
+    - apply (Rsum_split_lin (fun xy => bin_phi (snd xy) (lin (fst xy) w b)) (fun xy => Rdot (fst xy) d)).
+    - intros [x yi] Hin. simpl. rewrite Hd. apply Hdim. eapply in_combine_l; exact Hin. }
+  pose proof (Rdot_sq_lower w' w Hl) as Hp. fold d in Hp.
+  rewrite (Rdot_map_add (fun j => Rsum (map (fun xy => bin_phi (snd xy) (lin (fst xy) w b) * nth j (fst xy) 0) (combine X y)))
+                        (fun j => alpha * nth j w 0)).
+  rewrite Rdot_map_scal, map_nth_seq.
+  nra.
+Qed.
+
+Lemma logistic_convex_optimal_lemma alpha X y w b w' b' tau :
+  0 <= alpha -> 0 <= tau -> length w' = length w -> (forall x, In x X -> length x = length w) ->
+  (forall j, (j < length w)%nat -> Rabs (bin_grad_w alpha X y w b j) <= tau) ->
+  Rabs (bin_grad_b X y w b) <= tau ->
+  bin_loss alpha X y w b - tau * (l1norm (vsub w' w) + Rabs (b' - b)) <= bin_loss alpha X y w' b'.
+Proof.
+  intros Ha Ht Hl Hdim Hg Hb.
+  pose proof (logistic_first_order alpha X y w b w' b' Ha Hl Hdim) as H.
+  assert (H1 : - tau * l1norm (vsub w' w) <= Rdot (map (bin_grad_w alpha X y w b) (seq 0 (length w))) (vsub w' w)).
+  { apply Rdot_lower_bound; [exact Ht|]. intros gj Hin. apply in_map_iff in Hin as [j [E Hj]]. subst gj.
+    apply Hg. apply in_seq in Hj. lia. }
+  assert (H2 : - tau * Rabs (b' - b) <= bin_grad_b X y w b * (b' - b)).
+  { assert (H0 : Rabs (bin_grad_b X y w b * (b' - b)) <= tau * Rabs (b' - b))
+      by (rewrite Rabs_mult; pose proof (Rabs_pos (b' - b)); nra).
+    pose proof (Rle_abs (- (bin_grad_b X y w b * (b' - b)))) as H3. rewrite Rabs_Ropp in H3. lra. }
+  lra.
+Qed.
+
+Example convex_optimal_nonvacuous :
+  let X := [[0]; [1]; [0]; [1]] in let y := [1; -1; -1; 1] in
+  (forall j, (j < 1)%nat -> Rabs (bin_grad_w 1 X y [0] 0 j) <= 0) /\ Rabs (bin_grad_b X y [0] 0) <= 0.
+Proof.
+  unfold bin_grad_w, bin_grad_b, glin_grad_w, glin_grad_b, bin_phi, lin, Rsum. simpl. split.
+  - intros j Hj. assert (j = 0%nat) by lia. subst j. simpl.
+    repeat match goal with |- context [exp ?t] => replace t with 0 by ring; rewrite exp_0 end.
+    match goal with |- Rabs ?e <= 0 => replace e with 0 by field end. rewrite Rabs_R0. lra.
+  - repeat match goal with |- context [exp ?t] => replace t with 0 by ring; rewrite exp_0 end.
+    match goal with |- Rabs ?e <= 0 => replace e with 0 by field end. rewrite Rabs_R0. lra.
 Qed.
